@@ -22,6 +22,9 @@ def main():
         result["cola_file"] = cola.__file__
         mod = importlib.import_module(f"harness.monitors.{prop.lower()}")
         ctx = core.Ctx(prop, tier, seed, shard, nshards, repo)
+        from harness import build as _build_mod
+        _build_mod.CTX = ctx
+        ctx.auto_guard = prop not in ("C18", )  # (C18's histories update caller arrays on purpose and carry their own sanitizer)
         if budget:
             ctx.deadline = time.time() + budget
         rng = core.shard_rng(seed, prop, shard)
